@@ -172,3 +172,7 @@ def run(ctx):
     cells = [((sorted(fields)[0], 'None'),), ((sorted(fields)[0], ('Some', STAR)),)] if fields else [()]
     res = run_jobs(F, [{'key': 'client', 'entry': poll.id, 'aut': ('sink',), 'acc': acc, 'cells': cells}])
     judge(ctx, res['client'], poll, 'C04.cascade', 'client dispatch poll (cancel leaves the client)')
+    # a finished execution never queues its id for clean-up: whether the handler completed or was aborted by a Cancel, the guard is disarmed on every path, so
+    # cancelling a request cannot later un-track a different request that reuses its id
+    from .server_common import guard_always_disarmed
+    guard_always_disarmed(ctx, 'C04.guard', S)
